@@ -45,6 +45,14 @@ KINDS = {
     "stackgrow": "fn deep(n) { let a = [n]; if n == 0 { return 0; } return deep(n - 1) + a[0]; } deep(40);",
     "collect": "let l = 50.times().into(List.collect); let t = 20.times().list(); let u = [1, 2, 3].iter().into(Tuple.collect); let e = 0.times().list(); l.push(i);",
     "list_big": "let l = []; for j in 40.times() { l.push(j); } let m = l.slice(5); let r = l.rev();",
+    # short-lived fibers that park on a long-lived channel and are woken another way (their own child finishing): nothing of them may stay behind
+    "worker_with_helper": "fn helper() { let h = [1]; } fn worker(c, v) { launch helper(); c <- [v, 'w' + v.str()]; } launch worker(kc, i); let got = <- kc;",
+    "worker_blocked_send": "fn helper() { let h = [1]; } fn worker(c, v) { launch helper(); c <- [v]; } kc <- [0]; launch worker(kc, i); let g1 = <- kc; let g2 = <- kc;",
+    "two_workers_fanin": "fn helper() { let h = [1]; } fn worker(c, v) { launch helper(); c <- [v]; launch helper(); } launch worker(kc, i); launch worker(kc, i + 1); let g1 = <- kc; let g2 = <- kc;",
+    "four_workers_fanin": "fn helper(x) { return x; } fn worker(c, v) { let pay = [v, v + 1, v + 2]; launch helper(v); c <- pay[0]; } for k in 4.times() { launch worker(kc, k); } let sum = 0; for k in 4.times() { sum = sum + (<- kc); }",
+    "three_workers_two_helpers": "fn helper(x) { return x; } fn worker(c, v) { launch helper(v); launch helper(v); c <- [v]; } for k in 3.times() { launch worker(kc, k); } for k in 3.times() { let g = <- kc; }",
+    "sync_worker_helper": "fn helper() { let h = [1]; } fn worker(c, v) { launch helper(); c <- 's' + v.str(); } launch worker(ks, i); let got = <- ks;",
+    "receiver_worker": "fn helper() { let h = [1]; } fn taker(c, d) { launch helper(); let v = <- c; d <- [v]; } launch taker(kc, ks); kc <- [i]; let got = <- ks;",
     "regexp": "let r = RegExp('a' + i.str()); r.test('a1'); r.captures('a' + i.str());",
 }
 PRE = "import std.regexp:{RegExp};\nclass Holder { init() { self.x = nil; self.y = nil; } get() { return self.x; } }\nlet keep = [Holder(), 'live' + 'set', {1: [2]}, (3, 4), || 5];\nlet kc = chan(1); let ks = chan();\n"
